@@ -38,6 +38,9 @@ CHECKS = {
  "C12": dict(engine="bytes", category="model_checking", technique="same byte-string space as C06 restricted to verifier-accepted strings, compiled twice by the JIT (all) and Cranelift (one opcode per translation arm) under catch_unwind; plus every program length 1..3000 of 8 instruction kinds, fix-up tables up to 2000 jumps and 65535..65537 (10^6) instructions",
    text="jit_compile / cranelift_compile must return Ok or Err (a panic, including the emit_bytes! bounds assert that turns a buffer overrun into a panic, is a violation); two compilations must agree on Ok/Err and, where the reference machine proves the run defined, on the result (executed in a forked child).",
    design_ref="DESIGN.md section 4 C12"),
+ "C19": dict(engine="helpers", category="exploration", technique="exhaustive enumeration of helper argument alphabets (boundary values per argument, all buffer lengths/alignments, all short strings, every k^2 and k^2+-1) against independent functions; stdout of bpf_trace_printf captured in a child process",
+   text="gather_bytes, memfrob (guard pages + canaries), strcmp (all pairs of strings <= 3 bytes over sign-boundary bytes, null pointers), sqrti (integer square root below 2^52, bit-exact integer emulation of round-to-f64/sqrt/truncate above), bpf_trace_printf (return value == bytes captured), rand (range, no panic) - each compared on every element of its argument product.",
+   design_ref="DESIGN.md section 4 C19"),
  "C13": dict(engine="text", category="exploration", technique="exhaustive enumeration of mnemonics x operand shapes x boundary value/spelling alphabets against an independent encoder",
    text="Every mnemonic of the syntax x every operand shape (<=3 operands, plus 4) x boundary registers/offsets/immediates x number spellings and whitespace variants, plus every ordered pair of mnemonics and reduced triples, is assembled and compared byte-for-byte (or Err-for-Err) with an independent encoder written from the property text. Complete for the stated alphabets; values between boundaries are not covered.",
    design_ref="DESIGN.md section 4 C13"),
@@ -56,6 +59,7 @@ CHECKS = {
 }
 
 ENGINES = {
+ "helpers": ("mc/src/helperseng.rs", "kind D: helper argument enumerator (stdout captured in a child)"),
  "api": ("mc/src/apieng.rs", "kind B: explicit-state search of a protocol model (stateright BFS to fix-point) with per-transition replay on the real VM"),
  "ctx": ("mc/src/ctxeng.rs", "kind A: VM-kind x engine x configuration x execution-sequence explorer"),
  "mem": ("mc/src/memeng.rs", "kind A: access x address x layout explorer with guard-page arena and fork isolation"),
